@@ -114,6 +114,8 @@ def Msg.validateBasic : Msg → M Unit
     let _ ← needAddr .node frm
     require (id != 0) "validate: proof.id cannot be zero"
     require (decide (0 ≤ up) && decide (0 ≤ down)) "validate: proof.bandwidth cannot be negative"
+    require (decide (up.natAbs < 340282366920938463463374607431768211456) && decide (down.natAbs < 340282366920938463463374607431768211456))
+      "validate: proof.bandwidth cannot be greater than 2^128 bytes"
     require (decide (0 ≤ dur)) "validate: proof.duration cannot be negative"
     require (sig != .short) "validate: signature length"
   | .sessEnd frm id rating => do
@@ -380,13 +382,14 @@ def subAllocate (s : State) (frm : Addr) (id : Nat) (to : Addr) (bytes : Int) : 
   require (isPlanSub sub) "invalid subscription"
   require (frm = sub.addr) "unauthorized"
   let fromAlloc ← orReject (s.allocs.get (id, frm)) "allocation not found"
+  require (frm != to) "invalid allocation"
   let toAlloc : Alloc := (s.allocs.get (id, to)).getD { id, addr := to, granted := 0, used := 0 }
   let s1 := if (s.allocs.get (id, to)).isNone then { s with subForAcc := s.subForAcc.set (to, id) () } else s
   let granted ← SInt.add fromAlloc.granted toAlloc.granted
   let utilised ← SInt.add fromAlloc.used toAlloc.used
   let available ← SInt.sub granted utilised
   require (decide (bytes ≤ available)) "insufficient bytes"
-  let fg ← SInt.sub available bytes
+  let fg ← SInt.sub granted bytes
   require (decide (fromAlloc.used ≤ fg)) "invalid allocation"
   let fromAlloc' := { fromAlloc with granted := fg }
   let s2 := emit (setAllocation s1 fromAlloc') (evAllocate fromAlloc')
